@@ -290,16 +290,23 @@ Arguments x_now {U}.
 Definition xfop (x : bool * fault * sop) : fault * sop := (snd (fst x), snd x).
 
 (* ---- trace checking: handles and fault plans ---- *)
-Record xtrace := mkXTrace { xt_backend : backend; xt_ops : list (bool * fault * sop);
+(* do two handles taken from the provider share one cache?  The provider keeps a per-app map
+   (cache_provider_one_per_app); two FIRST calls for an app that overlap [conc] both miss the map unless its mutex is
+   held from the lookup to the store (cache_provider_lock_across_create) *)
+Definition provider_memo (conc : bool) : bool :=
+  cache_provider_one_per_app && (cache_provider_lock_across_create || negb conc).
+
+(* xt_concurrent: the two handles were taken by two overlapping AppStorage calls (else one after the other) *)
+Record xtrace := mkXTrace { xt_backend : backend; xt_concurrent : bool; xt_ops : list (bool * fault * sop);
                             xt_cached : list sout; xt_plain : list sout }.
 
 Definition agrees_x (t : xtrace) : bool :=
   list_eqb sout_eqb
     (match xt_backend t with
-     | Mem => xrun spec_step cache_provider_one_per_app cache_big_values_marked cache_key_guard cache_expired_leaves_marker
+     | Mem => xrun spec_step (provider_memo (xt_concurrent t)) cache_big_values_marked cache_key_guard cache_expired_leaves_marker
                    cache_write_error_marks
                    (mkX ([], 0) [] [] 0) (xt_ops t)
-     | Bbolt => xrun bb_step cache_provider_one_per_app cache_big_values_marked cache_key_guard cache_expired_leaves_marker
+     | Bbolt => xrun bb_step (provider_memo (xt_concurrent t)) cache_big_values_marked cache_key_guard cache_expired_leaves_marker
                    cache_write_error_marks
                      (mkX bb_init [] [] 0) (xt_ops t)
      end) (xt_cached t)
